@@ -171,6 +171,7 @@ func (r *Run) ev(prop string) {
 }
 
 func NewRun(prop string, nP, nS, nE int, opts Opts, st *Stats) *Run {
+	resetEntropy()
 	r := &Run{Prop: prop, Opts: opts, W: NewWorld(nP, nS, nE), Stats: st, hv: sha256.New(), hr: sha256.New()}
 	fmt.Fprintf(r.hv, "world %d %d %d\n", nP, nS, nE)
 	fmt.Fprintf(r.hr, "world %d %d %d\n", nP, nS, nE)
@@ -854,11 +855,29 @@ func (r *Run) frame(op *OpDesc, c *Call, pre *Snap, ops *Operands, bPre []byte, 
 		}
 		return false
 	}
+	// The receiver of a read-only method is not one of the "non-receiver
+	// arguments" the property wants bit-for-bit unchanged: an implementation may
+	// renormalise it (same value, other representation). Its value must stay.
+	reader := !(op.Writes || op.Ctor)
 	for i, p := range w.P {
 		if i != wrP && alpha.PointLimbs(p) != pre.P[i] {
+			if reader && op.Recv == KPoint && c.R == i && !isArg(c.P, i) {
+				a, wa := pointValid(pre.P[i])
+				b, wb := pointValid(alpha.PointLimbs(p))
+				if wa == "" && wb == "" {
+					ax, ay := a.Affine()
+					bx, by := b.Affine()
+					if ax.Cmp(bx) == 0 && ay.Cmp(by) == 0 {
+						r.Stats.Inc("observed/reader_changed_representation_of_its_receiver/" + op.Name)
+						continue
+					}
+				}
+			}
 			what := "an unrelated Point slot"
-			if isArg(c.P, i) || (op.Recv == KPoint && c.R == i) {
+			if isArg(c.P, i) {
 				what = "a non-receiver Point argument"
+			} else if op.Recv == KPoint && c.R == i {
+				what = "the value of the receiver of a read-only method"
 			}
 			vs = append(vs, r.viol("C11", "frame", op.Name+"/point", fmt.Sprintf("%s modified %s (P%d)", op.Name, what, i)))
 			break
@@ -866,9 +885,16 @@ func (r *Run) frame(op *OpDesc, c *Call, pre *Snap, ops *Operands, bPre []byte, 
 	}
 	for i, s := range w.S {
 		if i != wrS && alpha.ScalarLimbs(s) != pre.S[i] {
+			if reader && op.Recv == KScalar && c.R == i && !isArg(c.S, i) &&
+				alpha.ScalarVal(alpha.ScalarLimbs(s)).Cmp(alpha.ScalarVal(pre.S[i])) == 0 {
+				r.Stats.Inc("observed/reader_changed_representation_of_its_receiver/" + op.Name)
+				continue
+			}
 			what := "an unrelated Scalar slot"
-			if isArg(c.S, i) || (op.Recv == KScalar && c.R == i) {
+			if isArg(c.S, i) {
 				what = "a non-receiver Scalar argument"
+			} else if op.Recv == KScalar && c.R == i {
+				what = "the value of the receiver of a read-only method"
 			}
 			vs = append(vs, r.viol("C11", "frame", op.Name+"/scalar", fmt.Sprintf("%s modified %s (S%d)", op.Name, what, i)))
 			break
@@ -876,9 +902,16 @@ func (r *Run) frame(op *OpDesc, c *Call, pre *Snap, ops *Operands, bPre []byte, 
 	}
 	for i, e := range w.E {
 		if !wrE[i] && alpha.ElemLimbs(e) != pre.E[i] {
+			if reader && op.Recv == KElem && c.R == i && !isArg(c.E, i) && limbsOK(alpha.ElemLimbs(e)) &&
+				alpha.ElemVal(alpha.ElemLimbs(e)).Cmp(alpha.ElemVal(pre.E[i])) == 0 {
+				r.Stats.Inc("observed/reader_changed_representation_of_its_receiver/" + op.Name)
+				continue
+			}
 			what := "an unrelated Element slot"
-			if isArg(c.E, i) || (op.Recv == KElem && c.R == i) {
+			if isArg(c.E, i) {
 				what = "a non-receiver Element argument"
+			} else if op.Recv == KElem && c.R == i {
+				what = "the value of the receiver of a read-only method"
 			}
 			vs = append(vs, r.viol("C11", "frame", op.Name+"/elem", fmt.Sprintf("%s modified %s (E%d)", op.Name, what, i)))
 			break
